@@ -6,6 +6,9 @@ sys.path.insert(0, os.path.join(ROOT, "tools"))
 from registry import CHECKS, HOOK_COMMITS, NOT_APPLICABLE  # noqa
 
 props = [json.loads(l)["id"] for l in open(os.path.join(ROOT, "properties.jsonl"))]
+# only properties the lead has reviewed are claimed
+CLAIMED = set(open(os.path.join(ROOT, "tools", "checks", "claimed.txt")).read().split())
+CHECKS = {k: v for k, v in CHECKS.items() if k in CLAIMED}
 checks = []
 for pid in props:
     if pid not in CHECKS:
